@@ -4,6 +4,7 @@ import (
 	"fmt"
 	"reflect"
 	"sort"
+	"strconv"
 	"strings"
 
 	z "github.com/Oudwins/zog"
@@ -28,8 +29,13 @@ type helperWorld struct {
 	ptLog    []int
 }
 
+// a field schema: its version is the code of its failing test; schemas of two different types
+// (string / custom) alternate, so that replacing a key also replaces the type of its node
 func (w *helperWorld) field(version int) z.ZogSchema {
-	return z.String().Required(z.IssueCode(fmt.Sprintf("f%d", version)))
+	if version%2 == 1 {
+		return z.CustomFunc(func(p *string, ctx z.Ctx) bool { return !w.failMode }, z.IssueCode(fmt.Sprintf("f%d", version)))
+	}
+	return z.String().TestFunc(func(v any, ctx z.Ctx) bool { return !w.failMode }, z.IssueCode(fmt.Sprintf("f%d", version)))
 }
 func (w *helperWorld) test(id int) (z.BoolTFunc, z.TestOption) {
 	return func(v any, ctx z.Ctx) bool { return !w.failMode }, z.IssueCode(fmt.Sprintf("t%d", id))
@@ -47,7 +53,11 @@ func (w *helperWorld) observe(s *z.StructSchema) (fields [][2]string, tests, pts
 	}()
 	w.failMode = true
 	dest := reflect.New(helperDest)
-	errs := s.Parse(map[string]any{}, dest.Interface())
+	full := map[string]any{}
+	for _, k := range helperKeys {
+		full[k] = "x"
+	}
+	errs := s.Parse(full, dest.Interface())
 	for k, is := range errs {
 		switch k {
 		case "$first":
@@ -57,7 +67,12 @@ func (w *helperWorld) observe(s *z.StructSchema) (fields [][2]string, tests, pts
 			}
 		default:
 			for _, i := range is {
-				fields = append(fields, [2]string{k, strings.TrimPrefix(i.Code, "f")})
+				v := strings.TrimPrefix(i.Code, "f")
+				// the issue names the type of the node that is there now
+				if n, err := strconv.Atoi(v); err == nil && i.Dtype != map[bool]string{true: "custom", false: "string"}[n%2 == 1] {
+					v = "7700" + v + " (* issue type " + i.Dtype + " *)"
+				}
+				fields = append(fields, [2]string{k, v})
 			}
 		}
 	}
